@@ -190,6 +190,9 @@ def packet_families(rng, tier, scale=1.0):
     # pointer chains of mixed shape around the hop limit: runs of pointer-to-pointer steps reached through pointer-to-label steps
     for b in G.mixed_chain_family(thorough=(tier != "quick")):
         out.append(("mixed-chain", b))
+    # fixed fields combined freely: type x class x declared data length (0, 1, natural, natural + 1), last record or not, answer / additional
+    for b in G.field_matrix_packets():
+        out.append(("field-matrix", b))
     # both limits of a name at once: 126 / 127 / 128 one-byte labels read through 15 / 16 / 17 hops (in one piece, and spread over the hops)
     for b in G.limit_product_family(thorough=(tier != "quick")):
         out.append(("limit-product", b))
@@ -467,7 +470,7 @@ class C12(Prop):
                 "bytes 2-3 / 0-1 change) and getter-after-setter; setters never panic on a packet with a header.")
     assumptions = ["bytes < 256", "rcode/opcode arguments are u8, tid u16, flags u32 (the Rust types)"]
 
-    def one(self, rng, w, rounds, opt=None):
+    def one(self, rng, w, rounds, opt=None, table=False):
         tid = rng.randint(0, 0xFFFF)
         pkt = struct.pack(">HHHHHH", tid, w, 1, 0, 0, 1 if opt else 0) + G.wire_name([b"example", b"com"]) + struct.pack(">HH", 1, 1)
         if opt:  # (payload, extended flags): an OPT record, whose values the setters must leave alone
@@ -482,10 +485,11 @@ class C12(Prop):
             seq = [("sf", f), ("sr", r), ("so", o), ("sp", q), ("st", t)]
             rng.shuffle(seq)
             for name, a in seq:
-                ops += ["%s,%d" % (name, a), "g", "b"]
+                # table=True: the three setters the C function table has are called through it
+                ops += ["%s%s,%d" % ("F," if table and name in ("sf", "sr", "so") else "", name, a), "g", "b"]
                 args.append((name, a))
-        return Case("w%d%s" % (w, "e%d_%d_%d" % (opt[0], opt[1], tid) if opt else ""), "\t".join(ops),
-                    {"family": "flags-edns" if opt else "flags", "w": w, "tid": tid, "pkt": pkt.hex(), "args": args, "opt": opt})
+        return Case("w%d%s%s" % (w, "e%d_%d_%d" % (opt[0], opt[1], tid) if opt else "", "t" if table else ""), "\t".join(ops),
+                    {"family": "flags-table" if table else "flags-edns" if opt else "flags", "w": w, "tid": tid, "pkt": pkt.hex(), "args": args, "opt": opt})
 
     def empty_cases(self, rng, n, rounds):
         """The same setters on a synthesised empty packet (12 bytes: nothing but the header), before any record is inserted."""
@@ -520,8 +524,10 @@ class C12(Prop):
         rounds = 1 if tier == "quick" else 24
         words = range(65536) if tier == "quick" else range(0, 65536, 1)
         if tier == "thorough":
-            return [self.one(rng, w, 2 if w % 16 else rounds) for w in words] + self.edns_cases(rng, 6000, 6) + self.empty_cases(rng, 2000, 6)
-        return [self.one(rng, w, rounds) for w in words] + self.edns_cases(rng, 600, 3) + self.empty_cases(rng, 200, 3)
+            return ([self.one(rng, w, 2 if w % 16 else rounds) for w in words] + self.edns_cases(rng, 6000, 6) + self.empty_cases(rng, 2000, 6)
+                    + [self.one(rng, w, 4, table=True) for w in range(0, 65536, 4)])
+        return ([self.one(rng, w, rounds) for w in words] + self.edns_cases(rng, 600, 3) + self.empty_cases(rng, 200, 3)
+                + [self.one(rng, w, 2, table=True) for w in range(0, 65536, 64)])
 
     def search(self, rng):
         return [self.one(rng, w, 6) for w in range(65536)] + self.edns_cases(rng, 3000, 6) + self.empty_cases(rng, 1000, 6)
@@ -790,6 +796,19 @@ def special_valid(rng):
             cnt = [0, 0, 0]
             cnt[sec] = 2
             out.append(struct.pack(">HHHHHH", 5, 0x8180, 1, *cnt) + Qw + rrb(G.wire_name(q), t, rd) + rrb(wp, 1, b"\1\2\3\4"))
+    # two maximal names in one record: SOA whose primary and contact both expand to 253 / 254 / 255 bytes (written in full, and the
+    # second as a pointer to the first), MX and NS with a maximal name under a maximal owner
+    for l1 in (253, 254, 255):
+        for l2 in (253, 254, 255):
+            n1, n2 = G.name_of_wire_len(l1), G.name_of_wire_len(l2)
+            for sec in range(3):
+                cnt = [0, 0, 0]
+                cnt[sec] = 1
+                rd = G.wire_name(n1) + (G.wire_name(n2) if (l1, sec) != (l2, 1) else struct.pack(">H", 0xC000 | (12 + len(Qw) + 2 + 10))) + bytes(range(20))
+                out.append(struct.pack(">HHHHHH", 6, 0x8180, 1, *cnt) + Qw + rrb(b"\xc0\x0c", 6, rd))
+    for l1 in (254, 255):
+        n1 = G.name_of_wire_len(l1)
+        out.append(struct.pack(">HHHHHH", 6, 0x8180, 1, 2, 0, 0) + Qw + rrb(G.wire_name(n1), 15, b"\0\5" + G.wire_name(n1)) + rrb(G.wire_name(n1), 2, struct.pack(">H", 0xC000 | (12 + len(Qw)))))
     # a label starting at an offset whose low byte is 0xff / 0x00 / 0x01, named by a pointer from every kind of name
     for T in (255, 256, 257, 512, 768, 4096, 8191, 8192, 8193, 12000, 16382, 16383):
         out += G.label_at_packets(T)
@@ -831,6 +850,13 @@ class C03(Prop):
             head, mid = ops[:1], ops[1:8]
             rng.shuffle(mid)
             cases.append(Case("w%d" % i, "\t".join(head + mid + ["b"]), {"family": "walk", "pkt": b.hex()}))
+        # records whose fixed fields are combined freely (most are refused: the model and the code must refuse the same ones, and read
+        # the others alike)
+        k = len(cases)
+        for b in G.field_matrix_packets():
+            ops = ["P," + hx(b), "W,an,0,*" + ALLR, "W,ar,0,*" + ALLR, "W,ar,1,*" + ALLR, "b"]
+            cases.append(Case("w%d" % k, "\t".join(ops), {"family": "field-matrix", "pkt": b.hex()}))
+            k += 1
         return cases
 
     def oracle(self, case, io):
@@ -1423,6 +1449,27 @@ def big_compressed_packet(rng, usize):
     return b
 
 
+def inflating_packet(rng, usize):
+    """Like big_compressed_packet, with an authority record, an additional record and an OPT record after the answers: the section offsets
+    and the EDNS offset of the compressed layout differ from those of the pointer-free one. Pointer-free size: exactly `usize`."""
+    q = [bytes(rng.randint(97, 122) for _ in range(rng.randint(20, 30))) for _ in range(3)]
+    ql = sum(len(l) + 1 for l in q) + 1
+    tail_ns = [G.RR(q, 2, 1, 5, ("name", [b"ns"] + q))]
+    tail_ar = [G.RR([b"ns"] + q, 1, 1, 5, ("raw", b"\1\2\3\4")), G.RR([], 41, 1232, 0x8000, ("opt", [(10, b"12345678")]))]
+    fixed = 12 + ql + 4 + (ql + 10 + 3 + ql) + (3 + ql + 14) + (11 + 12)
+    recs = []
+    n = fixed
+    while n + (ql + 14) + (ql + 12) <= usize:
+        recs.append(G.RR(q, 1, 1, 5, ("raw", bytes(rng.getrandbits(8) for _ in range(4)))))
+        n += ql + 14
+    pad = usize - n - (ql + 10)
+    if pad < 1 or pad > 256:
+        return None
+    recs.append(G.RR(q, 16, 1, 5, ("raw", bytes([pad - 1]) + bytes(rng.randint(97, 122) for _ in range(pad - 1)))))
+    b, _ = G.encode(rng, G.Msg(5, 0x8180, q, 1, 1, an=recs, ns=tail_ns, ar=tail_ar), "greedy")
+    return b
+
+
 def exact_packet(rng, size):
     """An accepted response of exactly `size` bytes (size >= 60): TXT records owned by a pointer to the question."""
     q = [b"big", b"example"]
@@ -1546,6 +1593,29 @@ class HistProp(Prop):
                     out.append(self.finish(k0 + len(out), "P," + hx(b), bld, "requestion"))
         return out
 
+    def inflating_family(self, rng, k0, tier):
+        """Compressed responses of 1-2 KB whose pointer-free form has 7900 .. 9000 bytes: the first insertion decompresses, and must be
+        judged (accepted or refused, and the object left consistent either way) on the pointer-free length."""
+        out = []
+        for usz in ([8000, 8150, 8180, 8192, 8300] if tier == "quick" else [7900, 8000, 8100, 8150, 8170, 8180, 8185, 8190, 8192, 8200, 8300, 9000]):
+            for rep in range(4 if tier == "quick" else 8):
+                b = (inflating_packet if rep % 2 == 0 else big_compressed_packet)(rng, usz)
+                a = H.decode_bytes(b) if b else None
+                if a is None:
+                    continue
+                if rep % 2 == 0 and len(a.wire()) != usz:
+                    raise AssertionError("inflating_packet: pointer-free size %d, asked for %d" % (len(a.wire()), usz))
+                bld = H.Builder(rng, a, set())
+                if rng.random() < 0.5:
+                    bld.getter_op()
+                for _ in range(2):
+                    bld.insert_op()
+                for sj in range(3):
+                    bld.walk_op(si=sj, mode="read", incl=True)
+                bld.walk_op(si=rng.randrange(3), mode="mixed")
+                out.append(self.finish(k0 + len(out), "P," + hx(b), bld, "inflating"))
+        return out
+
     def data_pointer_family(self, rng, k0):
         """Known-finding class data-pointer: TTL / address writes on records whose bytes a later name is read through."""
         out = []
@@ -1595,12 +1665,15 @@ class HistProp(Prop):
         return best
 
     @staticmethod
-    def match_walk(exp, got):
-        """exp: list of per-yield token lists (None = wildcard token); got: observation string."""
+    def match_walk(exp, got, prefix=False):
+        """exp: list of per-yield token lists (None = wildcard token); got: observation string. prefix=True: the plan was cut at 400
+        yields, what follows in `got` (names read with the default action) is not compared."""
         if not got.startswith("W[") or not got.endswith("]"):
             return False
         toks = got[2:-1].split(" ") if len(got) > 3 else []
         flat = [t for y in exp for t in y]
+        if prefix and len(toks) >= len(flat):
+            toks = toks[:len(flat)]
         if len(toks) != len(flat):
             return False
         for e, g in zip(flat, toks):
@@ -1648,7 +1721,7 @@ class HistProp(Prop):
                 if "effect" in self.clauses and o != st.expect_out:
                     fails.append(("outcome", "%s returned %s, expected %s" % (what, o[:120], st.expect_out)))
             elif isinstance(st.expect_out, list):
-                if ("walk" in self.clauses or "effect" in self.clauses) and not self.match_walk(st.expect_out, o):
+                if ("walk" in self.clauses or "effect" in self.clauses) and not self.match_walk(st.expect_out, o, bool(st.note and st.note.get("truncated"))):
                     fails.append(("walk", "%s yielded %s; the abstract walk expects %s" % (
                         what, o[:400], " ".join(str(t) for y in st.expect_out for t in y)[:400])))
             # --- a walk in which every mutating action reported an error must leave the message as it was
@@ -1958,6 +2031,7 @@ class C08(HistProp):
         cases += self.data_pointer_family(rng, len(cases))
         cases += self.special_qtype_family(rng, len(cases))
         cases += self.requestion_family(rng, len(cases))
+        cases += self.inflating_family(rng, len(cases), tier)
         return cases
 
 
@@ -2005,6 +2079,7 @@ class C09(HistProp):
             cases.append(self.finish(i, first, bld, "effects"))
         cases += self.data_pointer_family(rng, len(cases))
         cases += self.special_qtype_family(rng, len(cases))
+        cases += self.inflating_family(rng, len(cases), tier)
         return cases
 
 
@@ -2203,6 +2278,12 @@ class C11(HistProp):
             for g in rng.sample(["q0", "q1", "q2", "qt"], 2):    # an emptied section reads as absent through every getter
                 bld.getter_op(g)
             bld.question_walk_op("read")
+            # a deleting walk over a record section of the object that now has no question
+            nonempty = [si for si in range(3) if any(r.t != G.T_OPT for r in bld.a.secs[si])]
+            if nonempty and rng.random() < 0.6:
+                si = rng.choice(nonempty)
+                tags = [id(r) for r in bld.a.secs[si] if r.t != G.T_OPT]
+                bld.walk_op(si=si, mode="delete", incl=rng.random() < 0.5, delete_set={rng.choice(tags)})
             for si in range(3):
                 bld.walk_op(si=si, mode="read", incl=True)
             cases.append(self.finish(k, first, bld, "delete-question-after-" + pre))
@@ -2780,6 +2861,16 @@ class C16(Prop):
             st = ["0:f0"] + ["%d:f%d" % (t, 1 + t % 4) for t in range(1, n)] + ["0:r"] + ["%d:r" % t for t in range(n - 1, 0, -1)] + ["0:r"]
             cases.append(Case("h%d" % k, "H,%d,%s" % (n, ".".join(st)), {"family": "many-threads"}))
             k += 1
+        # failing calls made without an error pointer (the bundled C hook does so for most calls) between failures and reads of other
+        # threads: such a call must leave every thread's description alone
+        for i in range(24 if tier == "quick" else 3000):
+            ka, kn, kb = rng.sample(range(13), 3)
+            st = ["0:f%d" % ka, "0:n%d" % kn, "1:f%d" % kb, "0:r", "1:r", "1:n%d" % ka, "0:f%d" % kn, "1:r", "0:r"]
+            if rng.random() < 0.5:
+                st = ["0:f%d" % ka, "1:n%d" % kn, "0:n%d" % kb, "2:f%d" % kb, "1:f%d" % kn, "0:r", "1:r", "2:r"]
+            n_thr = 1 + max(int(x.split(":")[0]) for x in st)
+            cases.append(Case("h%d" % k, "H,%d,%s" % (n_thr, ".".join(st)), {"family": "null-error-pointer"}))
+            k += 1
         # every ordered pair of the thirteen descriptions the failing calls produce: thread 0 fails with one, thread 1 with the other, both
         # read (descriptions kept in a shared table under a key derived from the text collide for particular pairs only)
         for i in range(13):
@@ -2816,7 +2907,10 @@ class C16(Prop):
         last = {}
         for st, tok in zip(steps, toks):
             t, a = st.split(":")
-            if a[0] == "f":
+            if a[0] == "n":
+                if tok != "rc=-1":
+                    return "failing table call (no error pointer) returned %s instead of -1" % tok
+            elif a[0] == "f":
                 last[t] = texts[int(a[1:]) % 13]
                 if tok != "rc=-1":
                     return "failing table call returned %s instead of -1" % tok
@@ -2979,6 +3073,20 @@ class C17(Prop):
             y = bytearray(x)
             y[rng.randrange(12, len(y))] ^= 1 << rng.randrange(8)
             add("near-duplicate", "C," + hx(x), "C," + hx(bytes(y)))
+        # set_name through the C function table (text name + raw default zone): pairs whose two arguments concatenate to the same bytes
+        # with the boundary between name and zone moved by one, and ordinary near-duplicates
+        for i in range(40 if tier == "quick" else 6000):
+            lab = bytes(rng.choice(b"abcdefgh") for _ in range(rng.randint(1, 8)))
+            L = rng.choice([x for x in range(33, 61) if x + 1 not in (46, 34, 59, 64, 92) and x not in (46, 92)])
+            chars = bytes(rng.choice(b"bcd") for _ in range(L))
+            zone_tail = bytes([L]) + chars + b"\0"
+            # zone 1: one label of L + 1 bytes whose first byte is L; moving its length byte to the end of the text name leaves zone 2
+            n1, z1 = lab, bytes([L + 1, L]) + chars + b"\0"
+            n2, z2 = lab + bytes([L + 1]), zone_tail
+            mk = lambda n, z: "PF,%s,W,an,n.N%s:%s.n/*n" % (hx(BASE_RESPONSE), hx(n), hx(z))
+            add("set-name-boundary", mk(n2, z2), mk(n1, z1))
+            add("set-name-boundary", mk(n1, z1), mk(n2, z2))
+            add("set-name-near", mk(lab, zone_tail), mk(lab + b"x", zone_tail))
         ops = lambda: rng.choice(["P," + hx(rng.choice(comp)), "U,%s,12" % hx(rng.choice(comp)), "C," + hx(rng.choice(plain)),
                                   "R,%s,%s,%s,1" % (hx(rng.choice(comp + plain)), hx(G.wire_name([b"new", b"name"])), hx(G.wire_name([rng.choice([b"com", b"org", b"example"])])))])
         for i in range(n):
